@@ -224,6 +224,39 @@ type scKey struct {
 	depth  int
 }
 
+// guarded runs a chain in a goroutine of its own making and turns a panic of
+// the code under test into a value.
+func guarded(ch []int) (panicked string) {
+	defer func() {
+		if p := recover(); p != nil {
+			panicked = fmt.Sprint(p)
+		}
+	}()
+	drive(ch)
+	return ""
+}
+
+// safeReadFile / safeReadStack: the file decoder and ReadStack run DecodeStack
+// on every name; a panic there is reported, not suffered.
+func safeReadFile(name string) (stacks map[string]uint64, err error) {
+	defer func() {
+		if p := recover(); p != nil {
+			stacks, err = nil, fmt.Errorf("panic: %v", p)
+		}
+	}()
+	_, stacks, err = counter.ReadFile(name)
+	return stacks, err
+}
+
+func safeReadStack(sc *counter.StackCounter) (m map[string]uint64, err error) {
+	defer func() {
+		if p := recover(); p != nil {
+			m, err = nil, fmt.Errorf("panic: %v", p)
+		}
+	}()
+	return counter.ReadStack(sc)
+}
+
 type stackRec struct {
 	chain chainIn
 	sc    *counter.StackCounter
@@ -343,7 +376,10 @@ func TestVerifC15Enc(t *testing.T) {
 		}
 		// ---- inlined frames (one PC, several frames) as leaf, in the middle, outermost
 		for _, fns := range [][]string{{"x.Inl1"}, {"x.Inl2"}, {"x.Inl1", "x.X"}, {"x.X", "x.Inl1", "y.Y"}, {"x.X", "x.Inl2"},
-			{"x.Inl2", "x.Inl1", "x.Inl2", "y.X"}, {"y.x.X", "x.Inl2", "x.Inl2", "x.Inl1"}, {"nodot.x", "x.Inl1", "nodot.y"}} {
+			{"x.Inl2", "x.Inl1", "x.Inl2", "y.X"}, {"y.x.X", "x.Inl2", "x.Inl2", "x.Inl1"}, {"nodot.x", "x.Inl1", "nodot.y"},
+			// a callee of ANOTHER package inlined into its caller: leaf, middle, outermost, repeated
+			{"x.InlY"}, {"x.InlY", "x.X"}, {"x.X", "x.InlY", "y.Y"}, {"y.Y", "y.X", "x.InlY"}, {"x.InlY", "x.InlY", "x.InlY"},
+			{"y.Y", "x.InlY", "x.Inl1", "y.x.X"}, {"nodot.y", "x.InlY", "nodot.x"}} {
 			for _, extra := range []int{-1, 0, 1, 3} {
 				in.Chains = append(in.Chains, chainIn{ID: id, Fns: fns, Prefix: "c15/inl", Extra: extra, Src: "inline"})
 				id++
@@ -483,6 +519,7 @@ func TestVerifC15Enc(t *testing.T) {
 		rt.Out(m)
 	}
 	// ---- the same new stack incremented from several goroutines at once
+	panics := make(chan string, 100000)
 	// (many rounds, each on a fresh stack counter of the same name, all
 	// goroutines released together)
 	chConc := idsOf("x.X", "y.Y")
@@ -496,7 +533,9 @@ func TestVerifC15Enc(t *testing.T) {
 		for g := 0; g < nG; g++ {
 			go func() {
 				<-start
-				drive(chConc)
+				if p := guarded(chConc); p != "" {
+					panics <- p
+				}
 				done <- true
 			}()
 		}
@@ -511,6 +550,51 @@ func TestVerifC15Enc(t *testing.T) {
 	if worst != 1 {
 		cacheProblem("concurrent-increments-of-one-stack-several-counters", rt.M{"counters": worst})
 	}
+	// ---- DISTINCT new stacks incremented for the first time from several
+	// goroutines at once, then each once more in sequence: every stack has its one
+	// listed counter straight away, no second one appears, and each counts 2
+	distinct := [][]int{idsOf("x.X", "y.Y"), idsOf("x.Y", "y.Y"), idsOf("y.X", "y.Y"), idsOf("y.Y", "y.Y"), idsOf("x.X", "x.X"),
+		idsOf("y.x.X", "x.Y"), idsOf("x.Inl1", "y.X"), idsOf("nodot.x", "x.X")}
+	const nRounds2 = 150
+	var scDist *counter.StackCounter
+	lostAfterRace, extraAfterRepeat := 0, 0
+	for round := 0; round < nRounds2; round++ {
+		scDist = f.NewStack("c15/conc2", 2)
+		tab.C = scDist
+		start, done := make(chan bool), make(chan bool)
+		for _, ch := range distinct {
+			ch := ch
+			go func() {
+				<-start
+				if p := guarded(ch); p != "" {
+					panics <- p
+				}
+				done <- true
+			}()
+		}
+		close(start)
+		for range distinct {
+			<-done
+		}
+		if n := len(scDist.Counters()); n != len(distinct) {
+			lostAfterRace++
+		}
+		for _, ch := range distinct {
+			drive(ch)
+		}
+		if n := len(scDist.Counters()); n != len(distinct) {
+			extraAfterRepeat++
+		}
+	}
+	if lostAfterRace > 0 || extraAfterRepeat > 0 {
+		cacheProblem("concurrent-first-increments-of-distinct-stacks-lose-counters", rt.M{"rounds": nRounds2,
+			"rounds_with_wrong_count_after_race": lostAfterRace, "rounds_with_wrong_count_after_repeat": extraAfterRepeat})
+	}
+
+	if len(panics) > 0 {
+		cacheProblem("panic-in-concurrent-Inc", rt.M{"panics": len(panics), "first": <-panics})
+	}
+
 	// ---- two StackCounter values of one name and depth: one counter on file
 	scT1, scT2 := f.NewStack("c15/twin", 2), f.NewStack("c15/twin", 2)
 	chTwin := idsOf("x.X", "x.Y") // one package: the second frame is abbreviated
@@ -522,7 +606,7 @@ func TestVerifC15Enc(t *testing.T) {
 	uncTwin := strings.Join(uncompressed("c15/twin", gT.pcs), "\n")
 
 	// ---- what the file decoder sees
-	_, fileStacks, ferr := counter.ReadFile(f.CurrentName())
+	fileStacks, ferr := safeReadFile(f.CurrentName())
 	if ferr != nil {
 		rt.Out(rt.M{"kind": "cache", "what": "file-unreadable", "err": ferr.Error()})
 		problems++
@@ -542,9 +626,15 @@ func TestVerifC15Enc(t *testing.T) {
 		if ns := scT1.Names(); len(ns) != 1 || ns[0] != c1[0].Name() {
 			cacheProblem("Names-differs-from-Counters", rt.M{"names": ns})
 		}
-		m, err := counter.ReadStack(scT1)
+		m, err := safeReadStack(scT1)
 		if err != nil || len(m) != 1 || m[uncTwin] != 3 {
 			cacheProblem("ReadStack-does-not-list-the-expanded-name", rt.M{"err": fmt.Sprint(err), "got": fmt.Sprint(m), "want": uncTwin})
+		}
+	}
+	for _, ctr := range scDist.Counters() {
+		if v := raw[ctr.Name()]; v != 2*nRounds2 {
+			cacheProblem("concurrent-first-increments-of-distinct-stacks-wrong-count", rt.M{"value": v, "want": 2 * nRounds2, "name": clip(ctr.Name())})
+			break
 		}
 	}
 	if cs := scConc.Counters(); len(cs) == 1 {
@@ -681,7 +771,7 @@ func TestVerifC15Enc(t *testing.T) {
 		tab.C = scT1
 		drive(chTwin)
 		drive(chTwin)
-		_, st2, err := counter.ReadFile(f.CurrentName())
+		st2, err := safeReadFile(f.CurrentName())
 		if n := len(scT1.Counters()); n != 1 || err != nil || st2[uncTwin] != 2 {
 			cacheProblem("after-rotation-same-stack-not-one-counter", rt.M{"counters": n, "err": fmt.Sprint(err), "value": st2[uncTwin], "want": 2})
 		}
